@@ -17,6 +17,12 @@
    * the replicas of one shard are called in parallel in the code; the model performs the calls
      in replica order (the calls of one visit are independent: each touches only its own
      written bit and its own script), the harness sorts the observed calls of one visit;
+   * the caller's request context: [cancel_at = Some k] means the context becomes done (deadline or
+     cancel) when the k-th shard visit of the run ends (k = 0: already done on entry); from then
+     on every replica call returns the context's error ([OCtx], never accepted) whatever its
+     script says.  A call that hangs until the deadline is an [OTimeout]/[OSlowOk] call in the
+     visit after which the context is done.  The retry loop of StoreDocuments and the back-off
+     sleep do not look at the context (plain time.Sleep), and neither does the model;
    * the result: nil / error of StoreDocuments and the log of shard visits with their calls.
    Not modelled: back-off sleeps, metrics, error texts, the internals of the circuit library
    (when it opens); payload bytes are abstracted to an identifier. *)
@@ -27,10 +33,20 @@ Inductive outcome :=
 | OOk        (* replica accepted, answered in time *)
 | OErr       (* call returned an error *)
 | OSlowOk    (* replica accepted but answered after the circuit's execution deadline *)
-| OTimeout.  (* no answer until the deadline: the call returns the context's error *)
+| OTimeout   (* no answer until the deadline: the call returns the context's error *)
+| OCtx.      (* the caller's context was already done: the call returns its error at once *)
 
 Definition accepted (o : outcome) : bool :=
-  match o with OOk | OSlowOk => true | OErr | OTimeout => false end.
+  match o with OOk | OSlowOk => true | OErr | OTimeout | OCtx => false end.
+
+(* request context: done?, shard visits completed so far, the visit count at which it expires *)
+Record cx := mkCx { dead : bool; nvis : nat; cancel_at : option nat }.
+Definition after_visit (c : cx) : cx :=
+  let n := S (nvis c) in
+  mkCx (dead c || match cancel_at c with Some k => Nat.eqb k n | None => false end) n (cancel_at c).
+Definition init_cx (cancel : option nat) : cx :=
+  mkCx (match cancel with Some 0 => true | _ => false end) 0 cancel.
+Definition eff (d : bool) (o : outcome) : outcome := if d then OCtx else o.
 
 Inductive tier := Cold | Hot.
 
@@ -46,22 +62,23 @@ Definition next_outcome (l : list outcome) : outcome * list outcome :=
 
 (* body of shard.Bulk's callback: every replica that is not yet written gets one call; its bit
    is set iff the call returned nil; result = no call failed (multierr.Combine = nil) *)
-Fixpoint send_reps (pay : N) (i : nat) (rs : list rep) : list rep * list call * bool :=
+Fixpoint send_reps (pay : N) (d : bool) (i : nat) (rs : list rep) : list rep * list call * bool :=
   match rs with
   | [] => ([], [], true)
   | r :: rest =>
-      let '(rest', calls, ok) := send_reps pay (S i) rest in
+      let '(rest', calls, ok) := send_reps pay d (S i) rest in
       if r_written r then (r :: rest', calls, ok)
-      else let '(o, sc) := next_outcome (r_script r) in
+      else let '(o0, sc) := next_outcome (r_script r) in
+           let o := eff d o0 in
            (mkRep (accepted o) sc :: rest', mkCall i o pay :: calls, accepted o && ok)
   end.
 
 (* shard.Bulk: breaker.Execute(callback) *)
-Definition shard_bulk (pay : N) (sh : shard) : shard * bool (* short *) * list call * bool (* nil *) :=
+Definition shard_bulk (pay : N) (d : bool) (sh : shard) : shard * bool (* short *) * list call * bool (* nil *) :=
   match s_open sh with
   | true :: fl => (mkShard fl (s_reps sh), true, [], false)
   | fl0 =>
-      let '(rs', calls, ok) := send_reps pay 0 (s_reps sh) in
+      let '(rs', calls, ok) := send_reps pay d 0 (s_reps sh) in
       (mkShard (tl fl0) rs', false, calls, ok)
   end.
 
@@ -74,19 +91,20 @@ Fixpoint update {A} (l : list A) (i : nat) (x : A) : list A :=
 
 (* the loop of sendBulkToStores over the shuffled indices: stop at the first shard whose Bulk
    returns nil; fail when none did *)
-Fixpoint send_order (t : tier) (pay : N) (order : list nat) (ts : list shard)
-  : list shard * list visit * bool :=
+Fixpoint send_order (t : tier) (pay : N) (order : list nat) (c : cx) (ts : list shard)
+  : list shard * cx * list visit * bool :=
   match order with
-  | [] => (ts, [], false)
+  | [] => (ts, c, [], false)
   | i :: rest =>
       match nth_error ts i with
-      | None => send_order t pay rest ts
+      | None => send_order t pay rest c ts
       | Some sh =>
-          let '(sh', short, calls, ok) := shard_bulk pay sh in
+          let '(sh', short, calls, ok) := shard_bulk pay (dead c) sh in
           let ts' := update ts i sh' in
+          let c' := after_visit c in
           let v := mkVisit t i short calls in
-          if ok then (ts', [v], true)
-          else let '(ts'', vs, ok') := send_order t pay rest ts' in (ts'', v :: vs, ok')
+          if ok then (ts', c', [v], true)
+          else let '(ts'', c'', vs, ok') := send_order t pay rest c' ts' in (ts'', c'', v :: vs, ok')
       end
   end.
 
@@ -94,30 +112,31 @@ Definition pop_order (n : nat) (orders : list (list nat)) : list nat * list (lis
   match orders with [] => (seq 0 n, []) | o :: r => (o, r) end.
 
 (* sendBulkToStores: no shards = nothing to do = nil *)
-Definition send_tier (t : tier) (pay : N) (orders : list (list nat)) (ts : list shard)
-  : list shard * list (list nat) * list visit * bool :=
+Definition send_tier (t : tier) (pay : N) (orders : list (list nat)) (c : cx) (ts : list shard)
+  : list shard * cx * list (list nat) * list visit * bool :=
   match ts with
-  | [] => (ts, orders, [], true)
+  | [] => (ts, c, orders, [], true)
   | _ => let '(o, orders') := pop_order (length ts) orders in
-         let '(ts', vs, ok) := send_order t pay o ts in (ts', orders', vs, ok)
+         let '(ts', c', vs, ok) := send_order t pay o c ts in (ts', c', orders', vs, ok)
   end.
 
 Record st := mkSt {
   cold_w : bool;
   cold : list shard; hot : list shard;
-  cold_ord : list (list nat); hot_ord : list (list nat) }.
+  cold_ord : list (list nat); hot_ord : list (list nat);
+  ctx : cx }.
 
 (* storeDocs: cold tier first (unless already written), then hot *)
 Definition store_docs (pay : N) (s : st) : st * list visit * bool :=
   if cold_w s then
-    let '(h', ho', vs, ok) := send_tier Hot pay (hot_ord s) (hot s) in
-    (mkSt true (cold s) h' (cold_ord s) ho', vs, ok)
+    let '(h', x', ho', vs, ok) := send_tier Hot pay (hot_ord s) (ctx s) (hot s) in
+    (mkSt true (cold s) h' (cold_ord s) ho' x', vs, ok)
   else
-    let '(c', co', vs, ok) := send_tier Cold pay (cold_ord s) (cold s) in
+    let '(c', x', co', vs, ok) := send_tier Cold pay (cold_ord s) (ctx s) (cold s) in
     if ok then
-      let '(h', ho', vs2, ok2) := send_tier Hot pay (hot_ord s) (hot s) in
-      (mkSt true c' h' co' ho', vs ++ vs2, ok2)
-    else (mkSt false c' (hot s) co' (hot_ord s), vs, false).
+      let '(h', x'', ho', vs2, ok2) := send_tier Hot pay (hot_ord s) x' (hot s) in
+      (mkSt true c' h' co' ho' x'', vs ++ vs2, ok2)
+    else (mkSt false c' (hot s) co' (hot_ord s) x', vs, false).
 
 (* the retry loop of StoreDocuments with [n] tries left: nil as soon as one attempt succeeds,
    error when the last one failed (and nil without doing anything for n = 0, as the Go loop) *)
@@ -136,9 +155,9 @@ Fixpoint attempts (n : nat) (pay : N) (s : st) : st * list visit * bool :=
 (* input of one run: per shard the breaker script and per replica the call script *)
 Definition shard_in := (list bool * list (list outcome))%type.
 Definition mk_shard (x : shard_in) : shard := mkShard (fst x) (map (mkRep false) (snd x)).
-Definition init_st (cin hin : list shard_in) (cord hord : list (list nat)) : st :=
-  mkSt false (map mk_shard cin) (map mk_shard hin) cord hord.
+Definition init_st (cin hin : list shard_in) (cord hord : list (list nat)) (cancel : option nat) : st :=
+  mkSt false (map mk_shard cin) (map mk_shard hin) cord hord (init_cx cancel).
 
 Definition store_documents (tries : nat) (pay : N) (cin hin : list shard_in)
-           (cord hord : list (list nat)) : st * list visit * bool :=
-  attempts tries pay (init_st cin hin cord hord).
+           (cord hord : list (list nat)) (cancel : option nat) : st * list visit * bool :=
+  attempts tries pay (init_st cin hin cord hord cancel).
